@@ -205,6 +205,11 @@ func genHostileFrame(t *rapid.T) (frame []byte, kind string) {
 			extra := rapid.IntRange(1, 300).Draw(t, "extra")
 			out := append([]byte{first}, ref.VBI(uint32(n+extra))...)
 			return append(out, body...), "arbitrary/short-body"
+		case 2:
+			// declared length at a power of two or next to one (size classes,
+			// buffer thresholds, the 1/2/3/4-byte forms), little or nothing behind it
+			out := append([]byte{first}, ref.VBI(rapid.SampledFrom(remLenBoundaries).Draw(t, "rlboundary"))...)
+			return append(out, body...), "arbitrary/boundary-remlen"
 		default:
 			return ref.Reframe(first, body), "arbitrary/consistent"
 		}
@@ -236,6 +241,9 @@ func genHostileFrame(t *rapid.T) (frame []byte, kind string) {
 			nv = uint32(rapid.IntRange(0, int(old)).Draw(t, "lenless"))
 		case 4:
 			nv = rapid.SampledFrom([]uint32{0, 1, 127, 128, 255, 16383, 16384, 65532, 65533, 65534, 65535, 2097151, 268435455}).Draw(t, "lenconst")
+			if lf.Kind == ref.KRemLen && rapid.Bool().Draw(t, "lenpow2") {
+				nv = rapid.SampledFrom(remLenBoundaries).Draw(t, "rlboundary")
+			}
 		default:
 			nv = rapid.Uint32().Draw(t, "lenany")
 		}
@@ -430,3 +438,29 @@ func genMisplacedProperty(t *rapid.T) []byte {
 	f, _ := tree.Bytes()
 	return f
 }
+
+// remLenBoundaries: every power of two up to 2^28 and its two neighbours
+// (inside the variable byte integer range); powers of two twice.
+var remLenBoundaries = func() []uint32 {
+	var out []uint32
+	for k := uint(0); k <= 28; k++ {
+		v := uint32(1) << k
+		for _, x := range []uint32{v - 1, v, v, v + 1} {
+			if x <= 268435455 {
+				out = append(out, x)
+			}
+		}
+	}
+	return out
+}()
+
+// rlTargetsPow2: remaining lengths of complete frames at powers of two from
+// 64 bytes to 1 MiB and next to them.
+var rlTargetsPow2 = func() []int {
+	var out []int
+	for k := uint(6); k <= 20; k++ {
+		v := 1 << k
+		out = append(out, v-1, v, v, v, v+1)
+	}
+	return out
+}()
